@@ -150,32 +150,21 @@ func (chain *Blockchain) Extends(block, target *hotstuff.Block) bool {
 }
 
 // PruneToHeight prunes the blockchain to the given height.
-func (chain *Blockchain) PruneToHeight(committedHeight, height hotstuff.View) (forkedBlocks []*hotstuff.Block) {
+func (chain *Blockchain) PruneToHeight(committed *hotstuff.Block, height hotstuff.View) (forkedBlocks []*hotstuff.Block) {
 	chain.mut.Lock()
 	defer chain.mut.Unlock()
 
-	committedViews := make(map[hotstuff.View]bool)
-	committedViews[committedHeight] = true
-	for h := committedHeight; h >= chain.pruneHeight; {
-		block, ok := chain.blockAtHeight[h]
-		if !ok {
-			break
-		}
-		parent, ok := chain.blocks[block.Parent()]
-		if !ok || parent.View() < chain.pruneHeight {
-			break
-		}
-		h = parent.View()
-		committedViews[h] = true
+	// follow the parent links of the committed block; the per-view index
+	// cannot be used for this since it holds only one block per view.
+	committedAt := make(map[hotstuff.View]hotstuff.Hash)
+	for block, ok := committed, true; ok && block.View() >= chain.pruneHeight; block, ok = chain.blocks[block.Parent()] {
+		committedAt[block.View()] = block.Hash()
 	}
 
 	for h := height; h > chain.pruneHeight; h-- {
-		if !committedViews[h] {
-			block, ok := chain.blockAtHeight[h]
-			if ok {
-				chain.logger.Debugf("PruneToHeight: found forked block: %v", block)
-				forkedBlocks = append(forkedBlocks, block)
-			}
+		if block, ok := chain.blockAtHeight[h]; ok && block.Hash() != committedAt[h] {
+			chain.logger.Debugf("PruneToHeight: found forked block: %v", block)
+			forkedBlocks = append(forkedBlocks, block)
 		}
 		delete(chain.blockAtHeight, h)
 	}
